@@ -269,7 +269,7 @@ func (g *gen) next(w *world) []string {
 		}
 		if g.restoreRequested && !g.rtAsked {
 			add(8, "rt", "restoreerror", []string{"Runtime.HookBoom", "bad_type"}[g.r.Intn(2)])
-			add(5, "rt", "initerror", "Function.RestoreInit")
+			add(5, "rt", "initerror", []string{"Function.RestoreInit", "bad_type<1>", "Function.bad;DROP", "Runtime.Ok"}[g.r.Intn(4)])
 			add(6, "sleep", "400")
 		}
 		add(6, "rt", "creds", []string{"good", "wrong", "good", ""}[g.r.Intn(3)])
